@@ -98,6 +98,7 @@ type scheduler struct {
 	syncs      map[*Value]*syncObj
 	shadow     map[*Value]*shadowCell
 	raceSeen   map[string]bool
+	preempt    bool
 	exited     chan struct{}
 }
 
@@ -300,6 +301,29 @@ func (w *Worker) blockUntil(pred func() bool, why string) {
 	}
 }
 
+// preemptPoint is called before synchronisation operations when the harness
+// asked for preemption (verifSchedPreempt): the running task may be switched
+// out although it could continue. Candidate 0 is "stay"; a switch consumes one
+// deviation of the delay bound. With it, the explored schedules are all
+// interleavings of synchronisation operations within the bound (enough for
+// data-race-free code), not only those that switch at blocking operations.
+func (w *Worker) preemptPoint() {
+	s := w.sched
+	if s == nil || !s.preempt || w.merging > 0 || s.choices >= s.maxChoices {
+		return
+	}
+	c := w.candidates(false)
+	if len(c) == 0 {
+		return
+	}
+	k := w.schedDecide(len(c) + 1)
+	if k == 0 {
+		return
+	}
+	s.cur.state = taskRunnable
+	w.switchTo(c[k-1])
+}
+
 // yield lets another runnable task run (runtime.Gosched, time.Sleep).
 func (w *Worker) yield() {
 	s := w.sched
@@ -380,6 +404,7 @@ func (w *Worker) release(o *syncObj) {
 // syncCall implements the sync package on the scheduler.
 func (w *Worker) syncCall(name string, args []Value) {
 	o := w.syncOf(args[0].(Ptr))
+	w.preemptPoint()
 	switch name {
 	case "(*sync.Mutex).Lock", "(*sync.RWMutex).Lock":
 		w.blockUntil(func() bool { return !o.locked && o.readers == 0 }, "Mutex.Lock")
@@ -461,6 +486,7 @@ func (w *Worker) chanSendSched(ch *ChanV, v Value) {
 	}
 	s := w.sched
 	capN := w.chanCap(ch)
+	w.preemptPoint()
 	if capN > 0 {
 		w.blockUntil(func() bool { return ch.closed || len(ch.items) < capN }, "chan send (buffer full)")
 	} else {
@@ -513,6 +539,7 @@ func (w *Worker) chanRecvSched(ch *ChanV, elem types.Type) (Value, bool) {
 	if ch == nil {
 		w.blockUntil(func() bool { return false }, "receive on nil channel")
 	}
+	w.preemptPoint()
 	if !w.chanRecvReady(ch) {
 		ch.recvWaiting++
 		w.blockUntil(func() bool { return w.chanRecvReady(ch) }, "chan receive")
@@ -570,6 +597,7 @@ func (w *Worker) selectSched(instr *ssa.Select, fr *frame) Value {
 		}
 		return r
 	}
+	w.preemptPoint()
 	ready := readyIdx()
 	chosen := -1
 	if len(ready) == 0 && instr.Blocking {
